@@ -167,6 +167,12 @@ class Gen:
 
     def p(self):
         rng = self.rng; e = m.P(self.d); self.common(e, "p")
+        if rng.random() < 0.06:
+            # a paragraph whose only content is line breaks: content all the same (it keeps its region alive while it is active)
+            for _ in range(rng.randint(1, 2)):
+                b = m.Br(self.d); b.set_id(self.uid("br")); e.push_child(b)
+            if rng.random() < 0.5: e.set_style(SP.BackgroundColor, rng.choice(COLORS))
+            return e
         for _ in range(rng.randint(0, 3)):
             k = rng.random()
             if k < self.ruby_p: e.push_child(self.ruby())
@@ -201,6 +207,10 @@ class Gen:
             if rng.random() < 0.4: r.set_begin(rtime(rng, 4))
             if rng.random() < 0.4: r.set_end(rtime(rng, 14))
             if rng.random() < 0.5: r.set_style(SP.ShowBackground, rng.choice(list(s.ShowBackgroundType)))
+            if r.get_style(SP.ShowBackground) is s.ShowBackgroundType.whenActive and rng.random() < 0.3 and "ShowBackground" not in self.exclude:
+                # a background that is painted only while a timed step says "always" (and is opaque then): times at which no content is active
+                r.add_animation_step(m.DiscreteAnimationStep(SP.ShowBackground, rtime(rng, 6, 0.2), rtime(rng, 12, 0.3, 2), s.ShowBackgroundType.always))
+                if "BackgroundColor" not in self.exclude and rng.random() < 0.7: r.set_style(SP.BackgroundColor, rng.choice(COLORS))
             self.deco(r, dens=self.sd * 2)
             if d.has_initial_value(SP.Direction) and rng.random() < 0.85 and "WritingMode" not in self.exclude:
                 # direction special semantics against the document's initial value
